@@ -26,6 +26,9 @@
 //!                                     `k<c>:<u>` seeks that go on after errors, failed seeks and seeks
 //!                                     onto bytes that merely parse as a frame; obs = per call
 //!                                     `<count|position sought|Err>@<position told>`; model = SeekBytes.hrs_run
+//!   hshifts <filehex> <ops1> <mid> <ops2>  the SHIFT theorem with further SEEKS in the continuation
+//!                                     (c02_seek_to_told_position_shift_ops): as hshift, ops2 = reads and
+//!                                     seeks; model = SeekBytesShiftOps.hshiftops_run
 //!   hshift <filehex> <ops1> <mid> <ns>  the SHIFT theorem (c02_seek_to_told_position_shift): reader A
 //!                                     (fresh) runs <ops1> (`r<n>` / `k<c>:<u>`), tells v, then reads
 //!                                     <ns>; reader B (fresh, same bytes) runs <mid> (anything, also
@@ -1376,6 +1379,83 @@ fn run_hshift(c: &Case) -> Obs {
     Obs::ok(o, all_ok && seek_ok && !ops1.is_empty() && ns.len() >= 2).with_verdict(verdict)
 }
 
+/// The shift theorem after a successful seek with FURTHER SEEKS in the continuation, on two real
+/// readers over the same bytes (kind hshifts: like hshift, but the continuation is a history of
+/// reads and seeks); compared with NV.Bgzf.SeekBytesShiftOps.hshiftops_run.  Asserted on the real
+/// rows (theorem c02_hshiftops_run_shift): when ops1 had no error and the seek succeeded, and the
+/// told position is inside a block or the continuation does not start with a failing seek, the
+/// rows (and the data) of the two readers are equal; with no premise, the first call returns the
+/// same in both (c02_seek_to_told_position_first_call).
+fn run_hshifts(c: &Case) -> Obs {
+    let bytes = nv::unhex(&c.args[0]);
+    let split = |s: &str| -> Vec<String> { if s == "_" { vec![] } else { s.split(',').map(str::to_string).collect() } };
+    let (ops1, mid, ops2) = (split(&c.args[1]), split(&c.args[2]), split(&c.args[3]));
+    let join = |v: &[String]| if v.is_empty() { "_".to_string() } else { v.join(" ") };
+    let mut verdict = Ok(());
+    let mut panic = false;
+    // reader A
+    let mut a = bgzf::io::Reader::new(Cursor::new(bytes.clone()));
+    let mut rows1 = Vec::new();
+    let mut all_ok = true;
+    for op in &ops1 {
+        let (g, vp, _) = hs_step(&mut a, op);
+        all_ok &= !g.starts_with("Err");
+        panic |= g == "Panic" || vp.is_none();
+        rows1.push(hs_row(&g, vp));
+    }
+    let told = match guarded(AssertUnwindSafe(|| a.virtual_position())) {
+        Outcome::Done(v) => v,
+        Outcome::Panicked(_) => return Obs::fail("-", "damaged-file-history-panic", "tell after ops1"),
+    };
+    let (mut rows_a, mut data_a, mut res_a) = (Vec::new(), Vec::new(), Vec::new());
+    for op in &ops2 {
+        let (g, vp, d) = hs_step(&mut a, op);
+        panic |= g == "Panic" || vp.is_none();
+        rows_a.push(hs_row(&g, vp));
+        res_a.push(g);
+        data_a.push(d);
+    }
+    // reader B
+    let mut b = bgzf::io::Reader::new(Cursor::new(bytes.clone()));
+    for op in &mid {
+        let (g, vp, _) = hs_step(&mut b, op);
+        panic |= g == "Panic" || vp.is_none();
+    }
+    let (sg, svp, _) = hs_step(&mut b, &format!("k{}:{}", told.compressed(), told.uncompressed()));
+    panic |= sg == "Panic" || svp.is_none();
+    let (mut rows_b, mut data_b, mut res_b) = (Vec::new(), Vec::new(), Vec::new());
+    for op in &ops2 {
+        let (g, vp, d) = hs_step(&mut b, op);
+        panic |= g == "Panic" || vp.is_none();
+        rows_b.push(hs_row(&g, vp));
+        res_b.push(g);
+        data_b.push(d);
+    }
+    let seek_ok = !sg.starts_with("Err") && sg != "Panic";
+    let first_fails = ops2.first().is_some_and(|o| o.starts_with('k')) && res_a.first().is_some_and(|g| g.starts_with("Err"));
+    let premise = told.uncompressed() > 0 || !first_fails;
+    let nseek2 = ops2.iter().filter(|o| o.starts_with('k')).count();
+    if panic {
+        verdict = Err(("damaged-file-history-panic".to_string(), "hshifts".to_string()));
+    } else if all_ok && seek_ok && premise && rows_a != rows_b {
+        verdict = Err(("seek-to-told-position-not-shift".to_string(), format!("A: {} B: {}", join(&rows_a), join(&rows_b))));
+    } else if all_ok && seek_ok && premise && data_a != data_b {
+        verdict = Err(("seek-to-told-position-other-data".to_string(), format!("told {}:{}", told.compressed(), told.uncompressed())));
+    } else if all_ok && seek_ok && res_a.first() != res_b.first() {
+        verdict = Err(("seek-to-told-position-first-call-differs".to_string(), format!("A: {} B: {}", join(&rows_a), join(&rows_b))));
+    }
+    let o = format!(
+        "{} | {}:{} | {} | {} | {}",
+        join(&rows1),
+        told.compressed(),
+        told.uncompressed(),
+        join(&rows_a),
+        hs_row(&sg, svp),
+        join(&rows_b)
+    );
+    Obs::ok(o, all_ok && seek_ok && premise && nseek2 >= 1 && ops2.len() >= 2).with_verdict(verdict)
+}
+
 /// The relocation form of the shift theorem on two real readers (see the header comment, kind
 /// hreloc); compared with NV.Bgzf.SeekBytesReloc.hreloc_run.
 fn run_hreloc(c: &Case) -> Obs {
@@ -1752,6 +1832,7 @@ fn run(c: &Case) -> Obs {
         "wfs" => run_wfs(c),
         "hrs" => run_hrs(c),
         "hshift" => run_hshift(c),
+        "hshifts" => run_hshifts(c),
         "hreloc" => run_hreloc(c),
         "hist" => run_hist(c),
         "wtell" | "wtm" => run_wtell(c),
@@ -2671,6 +2752,25 @@ fn generate(rng: &mut Rng, tier: &str, w: &mut CaseWriter) {
         let ns: Vec<String> = (0..rng.range(2, 6)).map(|_| rng.pick(&sizes).to_string()).collect();
         let j = |v: &[String]| if v.is_empty() { "_".to_string() } else { v.join(",") };
         w.push("hshift", vec![hex(&bytes), j(&ops1), j(&mid), j(&ns)]);
+        // the same with FURTHER SEEKS in the continuation (kind hshifts): reads, seeks to frame
+        // starts / block ends (most succeed), into damaged frames or anywhere (fail); sometimes the
+        // continuation STARTS with a seek (a failing one is the case the theorem excludes)
+        let n2 = rng.range(2, 7);
+        let ops2: Vec<String> = (0..n2)
+            .map(|i| {
+                if rng.chance(2, 5) || (i == 0 && rng.chance(1, 3)) {
+                    let c = match rng.below(6) {
+                        0 => rng.below(bytes.len() as u64 + 30),
+                        1 => (*rng.pick(&bounds) as u64 + rng.below(20)).saturating_sub(rng.below(20)),
+                        _ => *rng.pick(&bounds) as u64,
+                    };
+                    format!("k{}:{}", c, rng.pick(&[0u16, 0, 0, 1, 5, 41, 300, 65535]))
+                } else {
+                    format!("r{}", rng.pick(&sizes))
+                }
+            })
+            .collect();
+        w.push("hshifts", vec![hex(&bytes), j(&ops1), j(&mid), j(&ops2)]);
         // the relocation form (kind hreloc) on the same bytes: targets = frame starts (most), +-20,
         // anywhere, beyond the end; any in-block offset
         let c = match rng.below(8) {
